@@ -7,6 +7,7 @@ import (
 	"net"
 	"os"
 	"sort"
+	"strings"
 	"sync"
 	"syscall"
 	"time"
@@ -165,11 +166,19 @@ func (n *Network) dial(network, addr string, timeout time.Duration) (net.Conn, e
 	}
 	n.DialLog = append(n.DialLog, DialRec{At: n.e.Now(), Addr: addr, Outcome: out.String()})
 	n.e.Logf("net.dial", "#%d %s %s -> %s", idx, network, addr, out)
-	if _, _, err := net.SplitHostPort(addr); err != nil {
-		n.e.Logf("net.dial", "address does not split: %v", err)
-	}
 	opErr := func(e error) error {
 		return &net.OpError{Op: "dial", Net: network, Err: e}
+	}
+	host, _, err := net.SplitHostPort(addr)
+	if err != nil {
+		// the real dialer rejects what is not host:port before it touches the network
+		n.e.Logf("net.dial", "address does not split: %v", err)
+		return nil, opErr(err)
+	}
+	if net.ParseIP(host) == nil && strings.ContainsAny(host, "/:@ ") {
+		// ... and no resolver knows a host of that name
+		n.e.Logf("net.dial", "no such host %q", host)
+		return nil, opErr(&net.DNSError{Err: "no such host", Name: host, IsNotFound: true})
 	}
 	switch out {
 	case DialRefuse:
